@@ -131,6 +131,7 @@ def Unproved : List String :=
    "KnownDirectivesChecker", "KnownArgumentNamesChecker", "ValuesOfCorrectTypeChecker",
    "ProvidedRequiredArgumentsChecker", "VariablesInAllowedPositionChecker",
    "OverlappingFieldsCanBeMergedChecker", "UniqueInputFieldNamesChecker", "KnownFragmentNamesChecker",
-   "UniqueFragmentNamesChecker", "UniqueOperationNameChecker"]
+   "UniqueFragmentNamesChecker", "UniqueOperationNameChecker", "ExecutableDefinitionsChecker",
+   "LoneAnonymousOperationChecker"]
 
 end PyGql.Validate.Spec
